@@ -430,6 +430,13 @@ func (c *SpecCtx) lenOf(t *Term) *Term {
 	case isSeq(t.Sort):
 		return App("Int", "len_"+seqElem(t.Sort), t)
 	}
+	if t.T != nil {
+		if mt, ok := t.T.Underlying().(*types.Map); ok {
+			ks, es := c.x.reg.SortOf(mt.Key()), c.x.reg.SortOf(mt.Elem())
+			dn, _ := c.x.reg.MapArrays(ks, es)
+			return Ite(Eq(t, IntLit(0)), IntLit(0), App("Int", c.x.reg.MapCard(ks), sel(c.heapArr(dn), t, c.x.reg.heap[dn][1])))
+		}
+	}
 	c.fail("len of %s", t.Sort)
 	return nil
 }
